@@ -229,6 +229,13 @@ fn sweep(st: &mut Stats, c: char, surr: bool) {
                 format!("^\\u{{{:x}}}$", v)
             };
             if out != expected {
+                // same escapes in another spelling (e.g. upper-case hex digits, a non-capturing group)?
+                let d = decode(&out, surr);
+                let e = decode(&expected, surr);
+                if out.is_ascii() && d.problems.is_empty() && d.escapes == e.escapes && matches!(crate::oracle::compare(&d.pattern, &e.pattern), crate::oracle::Cmp::Equal) {
+                    st.count("equivalent_rendering");
+                    return;
+                }
                 let mut case = case_json(&tcs, s);
                 case["output"] = json!(out);
                 case["expected"] = json!(expected);
